@@ -1,6 +1,7 @@
 import DoltVerif.Gen.Journal
 import DoltVerif.Model.JournalRec
 import DoltVerif.Model.JournalRecover
+import DoltVerif.Model.JournalIndex
 /-! Tie: the facts the journal models (C03, C04, C41) use are exactly those regenerated from the Go
 source (`xlate` family `Journal`).  Everything here is `rfl`/`decide` over `Gen/Journal.lean`. -/
 namespace DoltVerif.Tie.Journal
@@ -104,5 +105,48 @@ theorem write_chunk_flow :
     Gen.Journal.wr_flush_flow = ["if err != nil", "call wr.journal.WriteAt"] ∧
     Gen.Journal.journalMaybeSyncThreshold = 64 * 1024 * 1024 ∧
     Gen.Journal.journalIndexDefaultMaxNovel = 16384 := by decide
+
+/-! ### C04: index layout, what the batch checksum covers, read-only guards -/
+
+theorem index_constants :
+    Gen.Journal.indexRecChunk = idxTagLookup.toNat ∧ Gen.Journal.indexRecMeta = idxTagMeta.toNat ∧
+    Gen.Journal.lookupSz = lookupSz ∧ Gen.Journal.lookupMetaSz = metaSz := by decide
+
+/-- field order of the index records = the order of `encodeLookup` / `encodeMeta` / `readLookup` / `readMeta` -/
+theorem index_field_order :
+    Gen.Journal.writeIndexLookupSeq = ["w.WriteByte(indexRecChunk)", "w.Write(l.a[:])", "put(l.r.Offset)", "w.Write(offsetBuf[:])", "put(l.r.Length)", "w.Write(lengthBuf[:])"] ∧
+    Gen.Journal.writeJournalIndexMetaSeq = ["w.WriteByte(indexRecMeta)", "put(uint64(start))", "w.Write(startBuf)", "put(uint64(end))", "w.Write(endBuf)", "put(checksum)", "w.Write(checksumBuf)", "w.Write(root[:])"] ∧
+    Gen.Journal.readIndexLookupSeq = ["io.ReadFull(addr[:])", "io.ReadFull(offsetBuf[:])", "io.ReadFull(lengthBuf[:])"] ∧
+    Gen.Journal.readIndexMetaSeq = ["io.ReadFull(startBuf[:])", "io.ReadFull(endBuf[:])", "io.ReadFull(checksumBuf[:])", "io.ReadFull(addr[:])"] ∧
+    Gen.Journal.processIndexCases = ["indexRecChunk", "indexRecMeta", "default"] := by decide
+
+/-- every `crc32.Update` of the batch checksum is fed the addr16 only (`a[:]` / `l.a[:]`): this is the
+fact `batchCrc` models and `index_ranges_unprotected` exploits.  Extending the checksum to the
+ranges changes this list and breaks this obligation. -/
+theorem batch_crc_covers_addr16_only :
+    Gen.Journal.batchCrcUpdates = ["wr.batchCrc <- a[:]", "wr.batchCrc <- a[:]", "batchCrc <- l.a[:]"] := by decide
+
+theorem read_index_flow :
+    Gen.Journal.readJournalIndexFlow =
+      ["if err != nil", "call processIndexRecords", "if m.checkSum != batchChecksum", "if m.batchStart != prev",
+       "if err != nil", "call peekRootHashAt", "if h != m.latestHash", "if !ok", "call wr.ranges.putCached",
+       "if err != nil", "if canWrite", "if err != nil", "call wr.truncateIndex", "call wr.ranges.flatten"] := by decide
+
+/-- every file-modifying call reachable from `bootstrapJournal` / `loadJournalIndex` /
+`readJournalIndex` / `corruptIndexRecovery` sits under `canWrite` (the second `os.OpenFile` is the
+`O_RDONLY` one of the read-only branch), and the truncation switch of `processJournalRecords` is
+`canWrite` -/
+theorem bootstrap_write_guards :
+    Gen.Journal.bootstrapWriteGuards =
+      [("bootstrapJournal:processJournalRecords", "not(err != nil)"),
+       ("bootstrapJournal:writeIndexLookup", "not(err != nil) && canWrite"),
+       ("bootstrapJournal:crc32.Update", "not(err != nil) && canWrite && not(err != nil)"),
+       ("bootstrapJournal:wr.flushIndexRecord", "not(err != nil) && not(err != nil) && canWrite && wr.ranges.novelCount() > wr.maxNovel"),
+       ("loadJournalIndex:os.OpenFile", "not(err != nil) && canWrite"),
+       ("loadJournalIndex:bufio.NewWriterSize", "not(err != nil) && canWrite && not(err != nil)"),
+       ("loadJournalIndex:os.OpenFile", "not(err != nil) && not(canWrite) && not(!exists)"),
+       ("readJournalIndex:wr.truncateIndex", "not(err != nil) && not(err != nil) && canWrite"),
+       ("corruptIndexRecovery:wr.truncateIndex", "canWrite")] ∧
+    Gen.Journal.bootstrapProcessArgs = ["canWrite", "wr.indexed"] := by decide
 
 end DoltVerif.Tie.Journal
